@@ -79,6 +79,22 @@ func (e *Engine) intrinsic(st *State, fr *Frame, fn *ssa.Function, args []Value,
 			b[i] = c.Var(fmt.Sprintf("%s[%d]", tag, i), SBV(8))
 		}
 		return retExit(st, StrV{B: b}), true
+	case "nondetEnum":
+		// program-level choice: forks into n states, each with a concrete value (recorded in the model)
+		tag := e.nondetName(st, concreteString(args[0], name))
+		n := concreteInt(args[1], name)
+		v := c.Var("enum:"+tag, SBV(64))
+		var out []exit
+		for i := 0; i < n; i++ {
+			s2 := st
+			if i < n-1 {
+				s2 = st.fork()
+				e.stats.States++
+			}
+			s2.assume(c.Eq(v, c.BV(uint64(i), 64)))
+			out = append(out, exit{st: s2, kind: exitReturn, val: c.BV(uint64(i), 64)})
+		}
+		return out, true
 	case "nondetLen":
 		tag := e.nondetName(st, concreteString(args[0], name))
 		max := concreteInt(args[1], name)
@@ -215,6 +231,10 @@ func (e *Engine) intrinsic(st *State, fr *Frame, fn *ssa.Function, args []Value,
 		return retExit(st, e.zone.offsetBV(st)), true
 	case "verifHavoc":
 		e.havoc(st, args[0])
+		return retExit(st, nil), true
+	case "verifOpaqueNumbers":
+		// from here on fmt renders symbolic numbers as opaque non-empty text (rendering is only checked for panics)
+		e.opt.OpaqueNumbers = args[0].(*Term).IsTrue()
 		return retExit(st, nil), true
 	case "verifSymbolic":
 		// true while executed by the engine, false natively
